@@ -140,8 +140,49 @@ for n in XE.__all__:
                         odd[label] = st
         except Exception:
             pass
+        # the public xsd_check switch flipped on elements that already hold children (added checked or unchecked), then ordinary use
+        try:
+            for start in (False, True):
+                e = c(xsd_check=start)
+                added = 0
+                for k in sorted(getattr(c(xsd_check=False), 'possible_children_names', None) or [])[:6]:
+                    try:
+                        e.add_child(R.make(k)); added += 1
+                    except Exception:
+                        continue
+                    if added >= 2:
+                        break
+                for label, f in (('xsd_check=%s with %d children' % (not start, added), lambda: setattr(e, 'xsd_check', not start)),
+                                 ('xsd_check back to %s' % start, lambda: setattr(e, 'xsd_check', start)),
+                                 ('xsd_check=True again', lambda: setattr(e, 'xsd_check', True)),
+                                 ('get_children after the switch', lambda: e.get_children()),
+                                 ('to_string after the switch', lambda: e.to_string())):
+                    try:
+                        f(); st = 'ok'
+                    except Exception as ex:
+                        st = type(ex).__name__
+                    if st not in ('ok', 'TypeError', 'ValueError') and not st.startswith(DOC):
+                        if label.startswith('to_string'):
+                            # control: the same children without any switch (a child whose own serialisation fails is recorded elsewhere)
+                            try:
+                                e2 = c(xsd_check=True)
+                                for ch in e.get_children():
+                                    try:
+                                        e2.add_child(R.make(ch.name))
+                                    except Exception:
+                                        pass
+                                e2.to_string(); st2 = 'ok'
+                            except Exception as ex2:
+                                st2 = type(ex2).__name__
+                            if st2 == st:
+                                continue
+                        odd[label] = st
+        except Exception:
+            pass
         rec['odd'] = odd
     rec['printed'] = bool(buf.getvalue())
+    if rec['printed']:
+        rec['printed_text'] = buf.getvalue()[:300]
     out.append(rec)
 json.dump(out, sys.stdout)
 '''
@@ -155,6 +196,8 @@ def class_sweep(rep):
         raise RuntimeError('class sweep failed: ' + r.stderr[-1500:])
     recs = json.loads(r.stdout)
     n = 0
+    if r.stderr.strip():
+        rep.violation('the class sweep wrote to file descriptor 2 behind sys.stderr: %r' % r.stderr[:200], {'stderr': r.stderr[:2000]})
     for rec in recs:
         for label in ('ctor', 'ctor_unchecked', 'to_string', 'to_string_unchecked', 'bad_attr', 'bad_dot', 'get_unknown'):
             n += 1
@@ -171,7 +214,7 @@ def class_sweep(rep):
             n += 1
             rep.finding_or_violation('C19:misuse:%s:%s' % (call.split(' xsd_check')[0].split('=')[0].split(' ')[0] + ('-' + call.split(' ')[1].split('=')[0] if call.startswith('attribute') else ''), st), '%s: %s raises %s' % (rec['cls'], call, st), {'class': rec['cls'], 'call': call, 'raises': st})
         if rec['printed']:
-            rep.violation('%s writes to stdout/stderr during construction / to_string' % rec['cls'], {'class': rec['cls']})
+            rep.violation('%s writes to stdout/stderr during construction / to_string / misuse / the xsd_check switch: %r' % (rec['cls'], rec.get('printed_text', '')[:160]), {'class': rec['cls'], 'text': rec.get('printed_text')})
     return len(recs), n
 
 
